@@ -368,6 +368,14 @@ def run(ctx, chk, tier="quick"):
 
 
 def _param_value(site, pname):
+    # by column (whatever the parameter is called, positional or named), then by parameter name
+    try:
+        from ..flow import Flow as _F
+        cv = site.column_values(_F.of(site.func))
+        if pname in cv:
+            return cv[pname]
+    except Exception:
+        pass
     p = site.params_node
     if isinstance(p, ast.Dict):
         for k, v in zip(p.keys, p.values):
